@@ -184,18 +184,18 @@ def up (cmp : K → K → Int) (fuel : Nat) (h : Heap K V) (xid : Nat) (sk : K) 
     else
       Heap.overfill cmp fuel h pid sk sv (some rid)
 
-theorem overfill_step (cmp : K → K → Int) (fuel : Nat) {h : Heap K V} {xid : Nat} {x : SNode K V Nat}
+theorem overfill_step (cmp : K → K → Int) {h : Heap K V} {xid : Nat} {x : SNode K V Nat}
     {kvs : List (K × V)} {cids : List Nat} (k : K) (v : V) {afterK : Option Nat}
     (hx : h.get xid = some x) (hr : NodeRep x kvs cids) (hfull : kvs.length = keysCap)
     (hk : (cids = [] ∧ afterK = none) ∨ (cids.length = kvs.length + 1 ∧ afterK.isSome))
     (hpres : ∀ c ∈ amalKids cids (lowerIdx Gen.Tree.amalgamLess cmp k kvs) afterK, (h.get c).isSome)
     (hxk : xid ∉ amalKids cids (lowerIdx Gen.Tree.amalgamLess cmp k kvs) afterK) :
     ∃ h1 l' r',
-      Heap.overfill cmp (fuel + 1) h xid k v afterK =
+      (∀ fuel, Heap.overfill cmp (fuel + 1) h xid k v afterK =
         up cmp fuel h1 xid
           ((insertAt kvs (lowerIdx Gen.Tree.amalgamLess cmp k kvs) (k, v)).getD Gen.Tree.medianIdx.toNat (k, v)).1
           ((insertAt kvs (lowerIdx Gen.Tree.amalgamLess cmp k kvs) (k, v)).getD Gen.Tree.medianIdx.toNat (k, v)).2
-          h.nodes.length ∧
+          h.nodes.length) ∧
       h1.root = h.root ∧ h1.size = h.size ∧ h1.gen = h.gen ∧ h1.nodes.length = h.nodes.length + 1 ∧
       NodeRep l' ((insertAt kvs (lowerIdx Gen.Tree.amalgamLess cmp k kvs) (k, v)).take Gen.Tree.medianIdx.toNat)
         ((amalKids cids (lowerIdx Gen.Tree.amalgamLess cmp k kvs) afterK).take (Gen.Tree.medianIdx.toNat + 1)) ∧
@@ -286,6 +286,7 @@ theorem overfill_step (cmp : K → K → Int) (fuel : Nat) {h : Heap K V} {xid :
   refine ⟨h1, l', r', ?_, by rw [hroot1, hroot], by rw [hsize1, hsize], by rw [hgen1, hgen], by rw [hlen1, hlen],
     hl, hp1, hrr, hp2, ?_⟩
   · -- the computation
+    intro fuel
     unfold Heap.overfill
     simp only [bind, pure, hx, Option.bind_some, hlow, hs, hstep, hrn, hln, hsp1]
     rfl
